@@ -1425,12 +1425,13 @@ class DSAPriv(PrivKey, DSAPub):
         if not self.s2k:
             self.x = MPI(packet)
 
-        else:
-            self.encbytes = packet
+            if self.s2k.usage == 0:
+                self.chksum = packet[:2]
+                del packet[:2]
 
-        if self.s2k.usage in [0, 255]:
-            self.chksum = packet[:2]
-            del packet[:2]
+        else:
+            # with S2K usage 254 / 255 the hash or checksum is part of the encrypted material
+            self.encbytes = packet
 
     def decrypt_keyblob(self, passphrase):
         kb = super(DSAPriv, self).decrypt_keyblob(passphrase)
@@ -1466,12 +1467,13 @@ class ElGPriv(PrivKey, ElGPub):
         if not self.s2k:
             self.x = MPI(packet)
 
-        else:
-            self.encbytes = packet
+            if self.s2k.usage == 0:
+                self.chksum = packet[:2]
+                del packet[:2]
 
-        if self.s2k.usage in [0, 255]:
-            self.chksum = packet[:2]
-            del packet[:2]
+        else:
+            # with S2K usage 254 / 255 the hash or checksum is part of the encrypted material
+            self.encbytes = packet
 
     def decrypt_keyblob(self, passphrase):
         kb = super(ElGPriv, self).decrypt_keyblob(passphrase)
